@@ -1,5 +1,6 @@
 """C14 -- closed-form transformers compute exactly the function they document."""
 import math
+import types
 import warnings
 from fractions import Fraction
 
@@ -25,20 +26,71 @@ def cells_of(df):
     return [[[S(v) for v in list(df.iloc[i, j])] for j in range(df.shape[1])] for i in range(df.shape[0])]
 
 
+def _interp1d_contract(x, y, kind="linear", **kw):
+    """scipy.interpolate.interp1d by its contract (see `stubs`)"""
+    import numpy as np
+
+    xs = [Fraction(float(v)) for v in x]
+    ys = list(y)
+    if len(xs) < 2:
+        raise ValueError("x and y arrays must have at least 2 entries")
+    if len(xs) != len(ys):
+        raise ValueError("x and y arrays must be equal in length along interpolation axis.")
+    if any(a >= b for a, b in zip(xs, xs[1:])):
+        order = sorted(range(len(xs)), key=lambda i: xs[i])  # (assume_sorted=False: scipy sorts)
+        xs, ys = [xs[i] for i in order], [ys[i] for i in order]
+
+    def f(q):
+        out = np.empty(len(q), dtype=object)
+        for j, v in enumerate(q):
+            v = Fraction(float(v))
+            if v < xs[0]:
+                raise ValueError("A value in x_new is below the interpolation range.")
+            if v > xs[-1]:
+                raise ValueError("A value in x_new is above the interpolation range.")
+            hi = 1
+            while hi < len(xs) - 1 and xs[hi] < v:
+                hi += 1
+            lo = hi - 1
+            out[j] = ys[lo] + (ys[hi] - ys[lo]) * ((v - xs[lo]) / (xs[hi] - xs[lo]))
+        return out
+
+    return f
+
+
+def _acf_contract(getW):
+    def acf(x, adjusted=False, nlags=None, qstat=False, fft=True, alpha=None, missing="none", **kw):
+        import numpy as np
+
+        W = getW()
+        z = [S(v) for v in list(x)]
+        n = len(z)
+        if nlags is None:
+            nlags = min(int(10 * math.log10(n)), n - 1)
+        if qstat or alpha is not None:
+            raise AssertionError("acf contract stub: qstat / alpha are outside the harness")
+        tag = "adj%d_fft%d_%s" % (int(bool(adjusted)), int(bool(fft)), missing)
+        return np.array([W.uf("acf%d_%s_%d" % (k, tag, n), z, "r" * n + ">r") for k in range(int(nlags) + 1)], dtype=object)
+
+    return acf
+
+
 class C14(Harness):
     pid = "C14"
     labels = (
         "padding", "truncation", "paa-frame-means", "tabularizer", "column-concatenator", "interval-segmenter", "sliding-window-segmenter",
-        "interval-features", "row-transformer", "slope", "cosine", "column-wise-adaptor", "imputer-rule", "rows-in-input-order", "requested-length", "reject-iff-invalid",
+        "interval-features", "row-transformer", "slope", "cosine", "column-wise-adaptor", "imputer-rule", "linear-interpolation", "autocorrelation", "rows-in-input-order", "requested-length", "reject-iff-invalid",
     )
     stubs = (
         "panel cell values are symbolic tokens (z3 reals) in object arrays; the transformers run on the real numpy / pandas (concrete world with token-capable np.zeros/full/empty)",
         "sqrt / cos on tokens := the engine's uninterpreted sqrt (s>=0, s*s=x) / cos",
         "row transformer's wrapped series transformer := elementwise uninterpreted function",
         "RandomIntervalFeatureExtractor: intervals drawn by the real numpy RNG for a concrete random_state; the features of those intervals are symbolic",
+        "scipy.interpolate.interp1d (symbolic runs) := its documented contract: piecewise-linear through (x_i, y_i) for concrete float abscissae, ValueError outside [x_0, x_-1] or with fewer than two points; replays run the real scipy",
+        "statsmodels acf (symbolic runs) := recording contract stub: r_k = uninterpreted A_k[adjusted, fft, missing](z_0..z_n-1) for k = 0..nlags (nlags=None: min(int(10*log10(n)), n-1)); replays run the real statsmodels against the textbook formula",
     )
     assumptions = ("PAA: exact equality where series_length / num_intervals is a binary fraction, otherwise |got - want| <= 1e-9 * (sum|x| + 1) (float frame arithmetic of the code)", "no missing values except in the imputer cells")
-    outside = ("TSInterpolator (scipy interp1d)", "autocorrelation transformers (statsmodels)", "tsfresh / catch22 / DWT / HOG1D / PCA numerics", "panels larger than the stated sizes")
+    outside = ("the numerics inside scipy's interp1d / statsmodels' acf themselves (contract stubs in symbolic runs, the real libraries in replays)", "partial autocorrelation, qstat=True", "tsfresh / catch22 / DWT / HOG1D / PCA numerics", "panels larger than the stated sizes")
     max_validate_quick = 16
 
     def bounds(self, tier):
@@ -50,11 +102,27 @@ class C14(Harness):
         out = [{"name": n, "kind": n, "cost": 2} for n in names]
         for m in ("ffill", "bfill", "constant", "mean", "median", "linear"):
             out.append({"name": "imputer-" + m, "kind": "imputer", "method": m, "cost": 1})
+        out.append({"name": "interpolator", "kind": "interpolator", "cost": 2})
+        out.append({"name": "acf", "kind": "acf", "cost": 2})
         return out
 
     def make_world(self, kind, cell):
         if cell["kind"] == "imputer":  # pandas reductions cannot carry tokens: the pandas model is used instead
             return Harness.make_world(self, kind, cell)
+        if cell["kind"] in ("interpolator", "acf") and kind == "sym":
+            key = "_W_" + cell["kind"]
+            W = self.__dict__.get(key)
+            if W is None:
+                from .c04 import numba_stub
+
+                self.make_world("conc", {"kind": "x"})  # (pandas shims)
+                if cell["kind"] == "interpolator":
+                    ov = {"scipy": types.SimpleNamespace(interpolate=types.SimpleNamespace(interp1d=_interp1d_contract))}
+                else:
+                    ov = {"statsmodels.tsa.stattools": types.SimpleNamespace(acf=_acf_contract(lambda: self._curW), pacf=None)}
+                W = worlds.make_conc_world(dict(ov, numba=numba_stub()))
+                self.__dict__[key] = W
+            return W
         W = self.__dict__.get("_W")
         if W is None:
             warnings.simplefilter("ignore")
@@ -118,6 +186,23 @@ class C14(Harness):
                 ctx.assume(False)
             inp["z"] = [float("nan") if m else v for v, m in zip(vals, mask)]
             inp["value"] = ctx.fresh_real("value")
+            return inp
+        if k == "interpolator":
+            ni = choice("ni", 1, 2)
+            lens = [choice("len%d" % i, 2, 4) for i in range(ni)]
+            inp["x"] = [[fresh_reals(ctx, "x%d_0_" % i, lens[i])] for i in range(ni)]
+            inp["length"] = choice("length", 1, 5)
+            inp["gapped_index"] = choice("gapped_index", 0, 1)  # the cells' own time labels are not equally spaced
+            return inp
+        if k == "acf":
+            n = choice("n", 3, 5)
+            inp["x"] = [[fresh_reals(ctx, "z", n)]]
+            inp["n_lags"] = choice("n_lags", 0, n - 1)  # 0 = None
+            inp["adjusted"] = bool(ctx.fresh_bool("adjusted"))
+            inp["fft"] = bool(ctx.fresh_bool("fft"))
+            inp["missing"] = ["none", "drop"][choice("missing", 0, 1)]
+            z = inp["x"][0][0]
+            ctx.assume(z[0] != z[1])  # (a constant series has no autocorrelation)
             return inp
         ni = choice("ni", 1, 2 if q else 3)
         nc = 1 if k in ("interval-int", "interval-array", "sliding", "features", "slope", "paa", "adaptor") else choice("nc", 1, 2)
@@ -287,6 +372,21 @@ class C14(Harness):
             t = AD(Sk()).fit(ztrain)
             r = t.transform(znew)
             return {"vals": [S(v) for v in list(r)], "idx": [S(v) for v in r.index]}
+        if k == "interpolator":
+            TI = W.load(PANEL + ".interpolate").TSInterpolator
+            if inp["gapped_index"]:
+                for i in range(X.shape[0]):
+                    c = X.iloc[i, 0]
+                    c.index = [t if t < 2 else t + 3 for t in range(len(c))]
+            r = TI(inp["length"]).fit(X).transform(X)
+            return {"cells": cells_of(r), "index": [S(v) for v in r.index], "cols": [str(c) for c in r.columns]}
+        if k == "acf":
+            AC = W.load("sktime.transformations.series.acf").AutoCorrelationTransformer
+            z = X.iloc[0, 0]
+            if not sym:
+                z = z.astype(float)
+            r = AC(adjusted=inp["adjusted"], n_lags=inp["n_lags"] or None, fft=inp["fft"], missing=inp["missing"]).fit(z).transform(z)
+            return {"vals": [S(v) for v in list(r)], "idx": [S(v) for v in r.index]}
         if k == "cosine":
             CT = W.load("sktime.transformations.series.cos").CosineTransformer
             z = X.iloc[0, 0]
@@ -295,7 +395,7 @@ class C14(Harness):
         raise AssertionError(k)
 
     def comparable(self, out, cell):
-        if cell["kind"] == "cosine":
+        if cell["kind"] in ("cosine", "acf"):
             return {"idx": out["idx"]}
         if cell["kind"] == "tabularizer":
             return {k: v for k, v in out.items() if k != "back"}  # inverse_transform goes through sklearn's check_array (concrete run only)
@@ -379,6 +479,39 @@ class C14(Harness):
                     P.check("requested-length", len(c) == len(idxs))
                     for t, src in zip(range(len(c)), idxs):
                         P.eq("truncation", c[t], x[i][j][src])
+            return
+        if k == "interpolator":
+            m = inp["length"]
+            if not shape_ok(out["cells"]):
+                return
+            P.check("rows-in-input-order", out["index"] == list(range(ni)) and out["cols"] == ["c0"])
+            for i in range(ni):
+                c, y = out["cells"][i][0], x[i][0]
+                n = len(y)
+                P.check("requested-length", len(c) == m, {"n": n, "length": m, "got": len(c)})
+                for q in range(min(len(c), m)):
+                    # the q-th of m equally spaced positions between the first and the last observation (positions, not labels)
+                    pos = Fraction(q * (n - 1), m - 1) if m > 1 else Fraction(0)
+                    lo = min(int(pos), n - 2)
+                    fr = pos - lo
+                    want = y[lo] + (y[lo + 1] - y[lo]) * (fr if P.sym else float(fr))
+                    self._eq_tol(P, "linear-interpolation", c[q], want, y, False, {"instance": i, "pos": q})
+            return
+        if k == "acf":
+            z = x[0][0]
+            n = len(z)
+            nl = inp["n_lags"] or min(int(10 * math.log10(n)), n - 1)
+            P.check("requested-length", len(out["vals"]) == nl + 1 and out["idx"] == list(range(nl + 1)), {"n": n, "n_lags": inp["n_lags"], "got": len(out["vals"])})
+            for kk in range(min(nl + 1, len(out["vals"]))):
+                if P.sym:
+                    tag = "adj%d_fft%d_%s" % (int(inp["adjusted"]), int(inp["fft"]), inp["missing"])
+                    want = W.uf("acf%d_%s_%d" % (kk, tag, n), z, "r" * n + ">r")
+                else:
+                    mu = sum(z) / n
+                    c0 = sum((v - mu) ** 2 for v in z) / n
+                    ck = sum((z[t] - mu) * (z[t + kk] - mu) for t in range(n - kk)) / ((n - kk) if inp["adjusted"] else n)
+                    want = ck / c0
+                P.eq("autocorrelation", out["vals"][kk], want, {"lag": kk, "adjusted": inp["adjusted"]})
             return
         Ln = len(x[0][0])
         if k == "paa":
